@@ -32,9 +32,13 @@ type WorkspaceLocker struct {
 	lockFile *os.File
 }
 
+// LockFileName is the name of the lock file inside the workspace root directory
+// (config.Global.GetWorkspaceRootDir()).
+const LockFileName = "lockfile"
+
 // NewWorkspaceLocker creates a locker using the global configuration.
 func NewWorkspaceLocker() *WorkspaceLocker {
-	lockFilePath := filepath.Join(config.Global.GetWorkspaceRootDir(), "lockfile")
+	lockFilePath := filepath.Join(config.Global.GetWorkspaceRootDir(), LockFileName)
 	return &WorkspaceLocker{lockFilePath: lockFilePath}
 }
 
